@@ -1326,7 +1326,7 @@ fn repo_vector(rng: &mut R, out: &mut Out, secp: &Secp256k1<All>) {
     let src = std::fs::read_to_string("/repo/src/blind.rs").unwrap_or_default();
     let hex_tx = src.split("const TX_HEX: &str = \"").nth(1).and_then(|s| s.split('"').next());
     let found = hex_tx.is_some();
-    out.s("repo_vector_test_blind_tx_found", found, || "const TX_HEX in src/blind.rs".into());
+    out.pin("repo_vector_test_blind_tx_found", found, || "const TX_HEX in src/blind.rs".into());
     if let Some(h) = hex_tx {
         let tx: Transaction = elements::encode::deserialize(&crate::unhex(h)).unwrap();
         let sec = TxOutSecrets {
